@@ -1,4 +1,4 @@
-import NeumannModel.Durable.Overlay
+import NeumannModel.Durable.Session
 /-
   C02 — "Durable store: acknowledged writes survive any crash, in order".
   ONLY the property theorems and their non-vacuity examples; the definitions used by the
@@ -330,6 +330,113 @@ theorem immediate_acks_everything (sy : Sys) (ops : List Op) (hm : sy.mode = .im
   | cons o ops ih =>
     rw [List.foldl_cons]
     exact ih _ (by rw [Sys.op_mode]; exact hm) (Sys.op_immediate crc enc sy o hm h0)
+
+/-! ### the acknowledgement rule of the three sync modes -/
+
+/-- **Every sync mode, any script of operations and explicit syncs, any crash cut** (`Immediate`,
+    `Batched m` for every `m`, `Manual`): a fresh durable store runs ANY list of durable
+    operations and `wal_sync` calls; the crash keeps any byte prefix of the log at or beyond the
+    synced length.  Recovery succeeds, `get` answers for every key outside the `_cache:` class what
+    the first `k` operations wrote (FULL observable image), and every operation whose records end
+    at or before the synced length — the acknowledged ones — is among them. -/
+theorem acked_writes_survive_every_mode (hc : CodecOK crc enc dec) (mode : SyncMode) (acts : List Act)
+    (n : Nat) (hfit : Fits enc (runOps Store.empty (opsOf acts)).1) :
+    ∃ k r, k ≤ (opsOf acts).length ∧
+      recover crc dec none ((acts.foldl (Sys.act crc enc) (Sys.fresh mode)).crashFile n) = .ok r ∧
+      FullEq r (specRun [] ((opsOf acts).take k)) ∧
+      ∀ a, a ≤ (opsOf acts).length →
+        (logBytes crc enc (runOps Store.empty ((opsOf acts).take a)).1).length
+          ≤ (acts.foldl (Sys.act crc enc) (Sys.fresh mode)).wal.syncedLen → a ≤ k := by
+  obtain ⟨k, r, hk, hrec, hfull, hack⟩ := recover_is_prefix_full hc (opsOf acts)
+    (max n (acts.foldl (Sys.act crc enc) (Sys.fresh mode)).wal.syncedLen) hfit
+  have hfile := (acts_file_mem crc enc (Sys.fresh mode) acts).1
+  rw [fresh_file, List.nil_append] at hfile
+  refine ⟨k, r, hk, ?_, hfull, fun a ha hlen => hack a ha (Nat.le_trans hlen (Nat.le_max_right _ _))⟩
+  unfold Sys.crashFile
+  rw [hfile]
+  exact hrec
+
+/-- **What an explicit `sync` acknowledges** (the `Batched` / `Manual` rule of the property's
+    quantifier): in ANY mode, every operation issued before a successful `sync` survives every
+    crash that follows, whatever is issued after the sync and wherever the log is cut. -/
+theorem writes_before_a_sync_survive (hc : CodecOK crc enc dec) (mode : SyncMode) (pre post : List Act)
+    (n : Nat) (hfit : Fits enc (runOps Store.empty (opsOf (pre ++ [Act.sync] ++ post))).1) :
+    ∃ k r, (opsOf pre).length ≤ k ∧ k ≤ (opsOf (pre ++ [Act.sync] ++ post)).length ∧
+      recover crc dec none
+        (((pre ++ [Act.sync] ++ post).foldl (Sys.act crc enc) (Sys.fresh mode)).crashFile n) = .ok r ∧
+      FullEq r (specRun [] ((opsOf (pre ++ [Act.sync] ++ post)).take k)) := by
+  obtain ⟨k, r, hk, hrec, hfull, hack⟩ :=
+    acked_writes_survive_every_mode hc mode (pre ++ [Act.sync] ++ post) n hfit
+  refine ⟨k, r, ?_, hk, hrec, hfull⟩
+  have hops : opsOf (pre ++ [Act.sync] ++ post) = opsOf pre ++ opsOf post := by
+    rw [opsOf_append, opsOf_append]; simp [opsOf]
+  apply hack
+  · rw [hops]; simp
+  · rw [hops, List.take_left']
+    · exact sync_covers crc enc mode pre post
+    · rfl
+
+/-- **`Batched m` leaves fewer than `m` records unacknowledged**: after any script on a fresh store
+    the unsynced part of the log is exactly its last `pending` records, and `pending < max m 1`
+    (`maybe_sync` fires when `pending_sync_count >= max_entries`; `m = 0` or `1` sync every
+    record). -/
+theorem batched_bounds_unacknowledged (m : Nat) (acts : List Act) :
+    let w := (acts.foldl (Sys.act crc enc) (Sys.fresh (.batched m))).wal
+    let R := (runOps Store.empty (opsOf acts)).1
+    w.file = logBytes crc enc R ∧ w.pending < max m 1 ∧ w.pending ≤ R.length ∧
+      w.syncedLen = (logBytes crc enc (R.take (R.length - w.pending))).length := by
+  have h := binv_acts crc enc m (Sys.fresh (.batched m)) [] rfl (binv_fresh crc enc m) acts
+  rw [List.nil_append] at h
+  exact ⟨h.file, h.bound, h.le, h.synced⟩
+
+/-- a `Batched 3` script with an explicit sync in the middle: 5 records, the first 4 synced (3 by
+    the automatic sync, the 4th by the explicit one), one pending -/
+example :
+    let acts := [Act.op (.put [1] ⟨[1], none⟩), .op (.put [2] ⟨[2], none⟩), .op (.put [3] ⟨[3], none⟩),
+                 .op (.put [4] ⟨[4], none⟩), .sync, .op (.put [5] ⟨[5], none⟩)]
+    let w := (acts.foldl (Sys.act (fun _ => 0) toyEnc) (Sys.fresh (.batched 3))).wal
+    w.pending = 1 ∧ w.syncedLen = 56 ∧ w.file.length = 70 := by
+  decide +kernel
+
+/-! ### the Bloom-filtered store -/
+
+/-- **A Bloom filter never hides a durable key** (`open_durable_with_bloom`,
+    `recover_with_bloom`: `get` / `exists` answer "absent" for a key the filter has not been given;
+    after a recovery the filter is rebuilt from `scan("")` and every `put_durable` adds its key).
+    On the store recovered from ANY disk state of the crash model, and after ANY further
+    operation list, the filtered store answers every `get` exactly as the unfiltered router —
+    whatever the false positives `fp` of the filter — so all the statements above hold of it
+    unchanged. -/
+theorem bloom_recovery_is_transparent (hc : CodecOK crc enc dec) {snap : Option Store} {f : Bytes}
+    {tr : Trace} (h : Reach crc enc dec snap f tr) (b : BStore)
+    (hb : recoverBloom crc dec snap f = .ok b) (fp : Bytes → Bool) (ops : List Op) :
+    recover crc dec snap f = .ok b.store ∧
+      ∀ k, (b.runOps ops).get fp k = get (runOps b.store ops).2 k := by
+  unfold recoverBloom at hb
+  cases hr : recover crc dec snap f with
+  | error e => rw [hr] at hb; cases hb
+  | ok r =>
+    rw [hr] at hb
+    injection hb with hb
+    subst hb
+    refine ⟨rfl, fun k => ?_⟩
+    have hg := reach_good hc h r hr
+    rw [cover_get (cover_runOps (b := ⟨r, scanKeys r⟩) hg (cover_recovered hg) ops) fp k,
+      bstore_runOps_store]
+
+/-- the same for a store opened fresh with a filter -/
+theorem bloom_fresh_is_transparent (fp : Bytes → Bool) (ops : List Op) (k : Bytes) :
+    (BStore.empty.runOps ops).get fp k = get (runOps Store.empty ops).2 k := by
+  rw [cover_get (cover_runOps (b := BStore.empty) good_empty cover_empty ops) fp k, bstore_runOps_store]
+  rfl
+
+/-- the filter matters: with a filter that was NOT given the recovered keys (`added = []`) a
+    recovered key is hidden — what `recover_with_bloom` avoids by rebuilding from `scan` -/
+example :
+    let r := (runOps Store.empty [Op.put [107] ⟨[1], none⟩]).2
+    (BStore.get (fun _ => false) ⟨r, []⟩ [107] = none) ∧ get r [107] = some ⟨[1], none⟩ ∧
+    BStore.get (fun _ => false) ⟨r, scanKeys r⟩ [107] = some ⟨[1], none⟩ := by
+  decide +kernel
 
 /-- **Rotation, logs that never rotate** (`_partial`: what is MISSING is every log that does
     rotate — there the property is false, see `rotation_keeps_acked_witness`): when all records
